@@ -99,6 +99,8 @@ impl MemoryManagerInner {
             }
         }
         maybe_acquire_fence();
+        #[cfg(multiqueue2_verif)]
+        crate::verif_hooks::probe(crate::verif_hooks::p::EPOCH_CYCLE_COMPLETED);
         for val in self.tofree.drain(..) {
             val.delete();
         }
@@ -130,6 +132,8 @@ impl MemoryManager {
         self.update_token(token);
         let mut inner = self.mem_manager.lock().unwrap();
         inner.remove_token(token);
+        #[cfg(multiqueue2_verif)]
+        crate::verif_hooks::probe(crate::verif_hooks::p::TOKEN_REMOVED);
         self.free(token as *mut MemToken, 1);
     }
 
@@ -141,6 +145,8 @@ impl MemoryManager {
                 let mut newv = Vec::new();
                 mem::swap(&mut newv, elemvec);
                 inner.add_freeable(newv);
+                #[cfg(multiqueue2_verif)]
+                crate::verif_hooks::probe(crate::verif_hooks::p::EPOCH_CYCLE_STARTED);
                 self.epoch
                     .store(cur_epoch.wrapping_add(1), Ordering::Release);
                 self.signal.set_epoch(Ordering::Release);
@@ -152,6 +158,8 @@ impl MemoryManager {
     pub fn free<T>(&self, pt: *mut T, num: usize) {
         let mut elemvec = self.wait_to_free.lock().unwrap();
         elemvec.push(ToFree::new(pt, num));
+        #[cfg(multiqueue2_verif)]
+        crate::verif_hooks::probe(crate::verif_hooks::p::FREE_DEFERRED);
         {
             let _lock = self.mem_manager.try_lock().map(|mut inner| {
                 let epoch = self.epoch.load(Ordering::SeqCst);
